@@ -314,12 +314,37 @@ SKELETONS = [
 ]
 
 
+def m_hi(v="0.22"):
+    return Msg("hi", "ver=" + hx(v), ["hi", "1" if v == "" else "0", "{PV}", "{SUP}"])
+
+
+def m_login_basic(who):
+    auth = "F,authfail401" if who == 5 else "R,%d,%d,0,0,%s,0" % (who, ACCT[who][0], state_word(who))
+    return Msg("login", "sch=basic sec=raw:%s" % hx("acct%d:pw%d" % (who, who)), ["login", "-", auth, "S"])
+
+
+def m_sub_obo(topic, who_word, tok):
+    return Msg("sub", "topic=" + topic, ["sub", "-", "1" if (topic in ("me", "fnd") and tok == GHOST) else "0"],
+               "as=%s al=-" % who_word, "x=%d:0" % tok, **{"as": tok})
+
+
 def gen_scenario(rng, sid):
     init = rng.choice(INITS)
     vld = 1 if rng.random() < 0.18 else 0
     n = rng.randint(1, 12)
     msgs = []
-    if rng.random() < 0.55:
+    if rng.random() < 0.05:
+        # a root session acting on behalf of existing and missing users
+        init, vld = (0, 0, 0), 0
+        msgs = [m_hi(), m_login_basic(6), m_sub_obo(rng.choice(["me", "fnd", "grp"]), rng.choice(["az", "az", "a2"]), 0)]
+        w = msgs[2].extra_impl.split()[0][3:]
+        tok = GHOST if w == "az" else 2
+        msgs[2] = m_sub_obo(msgs[2].impl.split("=")[1], w, tok)
+        msgs.append(m_sub_obo("grp", "a2", 2))
+        msgs.append(gen_msg(rng, vld, "pub"))
+        msgs.append(m_login_basic(1))
+        n = max(n, 6)
+    elif rng.random() < 0.55:
         for k in rng.choice(SKELETONS):
             msgs.append(gen_msg(rng, vld, k))
     while len(msgs) < n:
